@@ -53,8 +53,17 @@ def check_bic(rec: Rec, text: str, strict: bool, origin: str):
 
 
 def replay(rec, case):
+    from .. import dims
+    from ..lib import BIC
     i = case["input"]
-    check_bic(rec, i["text"], i["strict"], i.get("origin", "replay"))
+    origin = i.get("origin", "replay")
+    if origin == "hostile-registry":
+        hostile_registry(rec)
+        return
+    t = i["text"]
+    if origin.startswith("argform:"):
+        t = dict(dims.arg_forms(t, BIC)).get(origin.split(":", 1)[1], t)
+    check_bic(rec, t, i["strict"], origin)
 
 
 def bases(rng, n_extra):
@@ -91,6 +100,22 @@ def shard_base(arg):
         t = base.lower()
         check_bic(rec, t, strict, "lower")
         rec.case("lower", (t, strict), {"text": t, "strict": strict})
+        # extreme whitespace, domain tokens, argument forms (vlib/dims.py)
+        from .. import dims
+        from ..lib import BIC as _BIC
+        for label, t in dims.whitespace_extremes(base):
+            check_bic(rec, t, strict, f"ws-extreme:{label}")
+            rec.case("ws-extreme", (base, label, strict), {"label": label, "len": len(t), "base": base} if label == "trail-300" else None)
+            bad = t.replace(base[5], "-", 1)
+            check_bic(rec, bad, strict, f"ws-extreme-bad:{label}")
+            rec.case("ws-extreme-invalid", (base, label, strict, "bad"))
+        for label, t in dims.token_variants(base, dims.token_dictionary()[:24]):
+            check_bic(rec, t, strict, f"token:{label}")
+            rec.case(label, (t, strict))
+        for t in (base, base.lower(), base[:-1], " " + base, base[:4] + "QQ" + base[6:]):
+            for form, v in dims.arg_forms(t, _BIC):
+                check_bic(rec, v, strict, f"argform:{form}")
+                rec.case(f"argform-{form}", (t, form, strict), {"text": t, "form": form})
     rec.exhaustive.append("every position x every alphabet character, every length 0..14, per base and mode")
     return rec
 
@@ -110,6 +135,42 @@ def shard_countries(arg):
                          {"text": t, "strict": strict} if second in "Zz\u0131" else None)
     rec.exhaustive.append("all 676 two-letter country codes (upper and lower case) in 8- and 11-character BICs, both modes")
     return rec
+
+
+HOSTILE_BICS = ["1234DEWWXXX", "ABCDQQ22", "ABCDQQ22XXX", "GENODEM1G", "GENO-EM1GLS", "genodem1gls", "GENODEM1GLSX", "A1B2FR2A",
+                "ABCDEF", "", "ZZZZXK22", "DEUTDEFF 500"]
+
+
+def hostile_registry(rec: Rec):
+    """BIC acceptance is a function of the text alone: a copy of the package whose bank registry lists malformed and
+    digit-prefixed BICs must judge those very texts like the reference does (a registry 'fast path' would not)."""
+    from ..engines.pkgcopy import PackageCopy
+    from ..oracles.core import repo_root
+    entries = [{"country_code": "DE", "bank_code": f"{10000000 + i}", "bic": b, "name": "N", "short_name": "S", "primary": True}
+               for i, b in enumerate(HOSTILE_BICS)]
+    with PackageCopy(repo_root(), bank_files={"hostile.json": entries}) as pc:
+        ops = []
+        for b in HOSTILE_BICS:
+            for strict in (False, True):
+                ops.append({"op": "bic_verdict", "text": b, "strict": strict})
+        res = pc.query(ops)
+        if isinstance(res, dict):
+            rec.notes.append("hostile-registry copy does not import (C12/C17 territory): " + res["import_error"][-200:])
+            return
+        i = 0
+        for b in HOSTILE_BICS:
+            for strict in (False, True):
+                r = res[i]
+                i += 1
+                want = obic.accept(b, strict)
+                got = "ok" in r
+                if "crash" in r:
+                    rec.fail(f"crash|hostile-registry|{r['crash']}", "bic_total", {"text": b, "strict": strict, "origin": "hostile-registry"},
+                             want, r)
+                elif got != want:
+                    rec.fail(f"{'false_accept' if got else 'false_reject'}|hostile-registry", "bic_accept_independent_of_registry",
+                             {"text": b, "strict": strict, "origin": "hostile-registry", "registry_bics": HOSTILE_BICS}, want, got)
+                rec.case("hostile-registry", (b, strict, "hostile"), {"text": b, "strict": strict, "registry lists it": True})
 
 
 def text_strategy(registry_bics):
@@ -182,9 +243,11 @@ def run(ctx):
         for strict in (False, True):
             w = check_bic(rec, b, strict, "registry")
             rec.case("registry-accepted" if w else "registry-rejected", (b, strict))
+    hostile_registry(rec)
     ctx.hyp_explore(text_strategy(bics), hyp_body, ctx.pick(5000, 200000), name="C04-text")
     if not ctx.quick:
         from ..engines import fuzz
         fuzz.run_campaign(ctx.rec, "bic-c04", 150000, ctx.seed, ctx.prop)   # secondary engine: coverage-guided, oracle inside
-    ctx.require_classes("base-accepted", "replace-ascii", "replace-nonascii", "country-accepted", "country-rejected",
+    ctx.require_classes("ws-extreme", "token-prefix", "argform-userstr", "argform-own-object", "hostile-registry",
+                        "base-accepted", "replace-ascii", "replace-nonascii", "country-accepted", "country-rejected",
                         "length-trunc", "hyp-near", "hyp-text", "registry-accepted")
